@@ -311,3 +311,16 @@ func badIriData() []string {
 	}
 	return out
 }
+
+// messages around the placeholder syntax: unterminated, empty, nested, repeated and stray braces, placeholders that are not
+// prefix.name, a very long text - and the same texts as profile name, description and validation name
+func init() {
+	texts := []string{"{{", "the template syntax is {{ prefix.name", "a {{ex.p0}} b {{", "}}{{", "{{}}", "{{{{", "}}", "{{ex.p0}} {{", "{{ {{ex.p0}} }}", "{{ex.p0}}{{ex.p0}}{{ex.p0",
+		"{{ex}}", "{{.}}", "{{ex.p0 }} {{ ex.p0}} {{\tex.p0\t}}", "{{ex.p0\n}}", "{ {ex.p0} }", "%{{ex.p0}}%", "{{ex.p0}}%d%s%v", strings.Repeat("{{", 500), strings.Repeat("{{ex.p0}} ", 300) + "{{", "{{" + strings.Repeat("x", 5000)}
+	for _, t := range texts {
+		hostileProfiles = append(hostileProfiles,
+			strings.Replace(okProfile, "message: m", "message: "+yq(t), 1),
+			strings.Replace(okProfile, "profile: ", "description: "+yq(t)+"\nprofile: ", 1),
+			strings.Replace(strings.Replace(okProfile, "  - v\n", "  - "+yq(t)+"\n", 1), "  v:\n", "  "+yq(t)+":\n", 1))
+	}
+}
